@@ -14,6 +14,7 @@ import (
 	"strings"
 	"testing"
 	"testing/synctest"
+	"time"
 
 	"github.com/ipfs/go-cid"
 	record "github.com/libp2p/go-libp2p-record"
@@ -735,4 +736,126 @@ func TestVerifC15(t *testing.T) {
 			}
 			return true
 		}, Exec: execDual})
+}
+
+// ---------------------------------------------------------------------------------------------
+// C14 (sibling): Close of the dual DHT while operations are in flight; a constructor that fails half-way
+
+func runC14d(c *vu.Case) {
+	a := dkv(c.In[0])
+	if a["kind"] == "ctor" {
+		h := simnet.NewHost(dPeer(1000000))
+		// the WAN DHT is built first; the LAN DHT then fails
+		_, err := New(h, WanDHTOption(dht.ProtocolPrefix("/verif"), dht.Mode(dht.ModeClient)),
+			LanDHTOption(dht.ProtocolPrefix("/verif"), dht.ProtocolExtension(LanExtension), dht.Mode(dht.ModeOpt(99))))
+		synctest.Wait()
+		out := fmt.Sprintf("ctor err=%v panic=false", err != nil)
+		h.Close()
+		c.Out = append(c.Out, out)
+		return
+	}
+	a["wanrt"], a["lanrt"] = "1", "1"
+	w := newDual(a, dht.ModeClient)
+	ctx := context.Background()
+	keyMH, _ := mh.Sum([]byte("verif-dual-"+a["key"]), mh.SHA2_256, -1)
+	keyCid := cid.NewCidV1(cid.Raw, keyMH)
+	nops := 2
+	done := make(chan struct{}, nops)
+	for i := 0; i < nops; i++ {
+		go func() {
+			defer func() { done <- struct{}{} }()
+			switch a["kind"] {
+			case "provide":
+				_ = w.d.Provide(ctx, keyCid, true)
+			case "putvalue":
+				_ = w.d.PutValue(ctx, "/v/"+a["key"], []byte("3:ok"))
+			case "getvalue":
+				_, _ = w.d.GetValue(ctx, "/v/"+a["key"])
+			case "findpeer":
+				_, _ = w.d.FindPeer(ctx, dPeer(tPeer))
+			case "findprovs":
+				for range w.d.FindProvidersAsync(ctx, keyCid, 0) {
+				}
+			case "searchvalue":
+				ch, err := w.d.SearchValue(ctx, "/v/"+a["key"])
+				if err == nil {
+					for range ch {
+					}
+				}
+			}
+		}()
+	}
+	synctest.Wait()
+	rel, _ := strconv.Atoi(a["rel"])
+	for i := 0; i < rel; i++ {
+		ps := w.parked()
+		if len(ps) == 0 {
+			break
+		}
+		var resp *pb.Message
+		if ps[0].Msg != nil && ps[0].Kind == "req" {
+			resp = pb.NewMessage(ps[0].Msg.GetType(), ps[0].Msg.GetKey(), 0)
+		}
+		ps[0].Sender.Release(ps[0], simnet.Result{Resp: resp})
+		synctest.Wait()
+	}
+	closed := make(chan struct{}, 1)
+	go func() { _ = w.d.Close(); closed <- struct{}{} }()
+	synctest.Wait()
+	for round := 0; round < 200; round++ {
+		ps := w.parked()
+		if len(ps) == 0 {
+			break
+		}
+		if ps[0].Ctx.Err() != nil {
+			ps[0].Sender.Release(ps[0], simnet.Result{CtxErr: true})
+		} else {
+			ps[0].Sender.Release(ps[0], simnet.Result{Err: simnet.ErrScripted})
+		}
+		synctest.Wait()
+	}
+	time.Sleep(2 * time.Minute)
+	synctest.Wait()
+	returned, nclosed := 0, 0
+	for {
+		select {
+		case <-done:
+			returned++
+			continue
+		case <-closed:
+			nclosed++
+			continue
+		default:
+		}
+		break
+	}
+	err2 := w.d.Close()
+	w.h.Close()
+	synctest.Wait()
+	c.Out = append(c.Out, fmt.Sprintf("returned=%d/%d closed=%d/1 again=%v", returned, nops, nclosed, err2 == nil))
+}
+
+func TestVerifC14d(t *testing.T) {
+	vu.Run(t, vu.Config{Prop: "C14d", QuickN: 150, ThoroughN: 5000,
+		Gen: func(r *vu.RNG, c *vu.Case) bool {
+			if c.Idx%10 == 9 {
+				c.In = append(c.In, "life kind=ctor host=-")
+			} else {
+				c.In = append(c.In, fmt.Sprintf("life kind=%s key=%d rel=%d host=4:134744072", []string{"provide", "putvalue", "getvalue", "findpeer", "findprovs", "searchvalue"}[r.Intn(6)], c.Idx, r.Intn(6)))
+			}
+			c.Tag("nontrivial")
+			return true
+		}, Exec: func(c *vu.Case) {
+			func() {
+				defer func() {
+					if r := recover(); r != nil {
+						for len(c.Out) < len(c.In) {
+							c.Out = append(c.Out, "-")
+						}
+						c.Out[len(c.Out)-1] += " |BUBBLE:" + strings.ReplaceAll(fmt.Sprint(r), " ", "_")
+					}
+				}()
+				synctest.Test(c.T, func(t *testing.T) { runC14d(c) })
+			}()
+		}})
 }
